@@ -27,12 +27,13 @@ type dump = {
   mutable funcs : (int * int * int * bool * string) list;  (* addr np nfree ffi name *)
   mutable functab : (int * int * int * string) list;
   mutable centry : int;
+  mutable nstr : int;
   mutable trace : (int * int * int * int) list;  (* ip sp fp pp *)
   mutable compiled : bool;
 }
 
 let parse file =
-  let d = { code = [||]; exct = []; funcs = []; functab = []; centry = 0; trace = []; compiled = false } in
+  let d = { code = [||]; exct = []; funcs = []; functab = []; centry = 0; nstr = 0; trace = []; compiled = false } in
   let ic = open_in file in
   let code = ref [] and tr = ref [] in
   (try
@@ -42,6 +43,7 @@ let parse file =
        match p with
        | "COMPILE" :: r :: _ -> d.compiled <- (r = "0")
        | "CODE" :: _ :: "ENTRY" :: e :: _ -> d.centry <- int_of_string e
+       | "STRTAB" :: k :: _ -> d.nstr <- int_of_string k
        | "I" :: _ :: op :: w0 :: w1 :: w2 :: _ ->
          code := (int_of_string op, int_of_string w0, int_of_string w1, int_of_string w2) :: !code
        | "X" :: b :: h :: _ -> d.exct <- (int_of_string b, int_of_string h) :: d.exct
@@ -142,6 +144,15 @@ let () =
        | _ -> ())
     | _ -> ()
   done;
+  (* ---- static reference checks (Verifier/Refs.v, theorem references_exist) ---- *)
+  let rmetas = List.map (fun (a, _, nf, _, _) -> { rm_addr = nat_of_int a; rm_nfree = z_of_int nf }) d.funcs in
+  if check_refs prog rmetas (z_of_int d.nstr) nbuiltin then print_endline "REFS ok"
+  else begin
+    let bad = ref (-1) in
+    List.iteri (fun a i -> if !bad < 0 && not (ref_ok_at prog rmetas (z_of_int d.nstr) nbuiltin (nat_of_int a) i) then bad := a) prog;
+    let (op, w0, _, _) = if !bad >= 0 then d.code.(!bad) else (0, 0, 0, 0) in
+    Printf.printf "REFS fail addr=%d op=%d w0=%d nstr=%d\n" !bad op w0 d.nstr
+  end;
   let certl = Array.to_list certs in
   let ok = check_all prog exct metas entry certl in
   if ok && !bad_op = None then print_endline "VERIFY ok"
